@@ -44,6 +44,9 @@ pub struct Profile {
     pub account_fee_pct: u64,
     /// restrict to these resources (None = all)
     pub focus: Option<Vec<usize>>,
+    /// chance (percent) that, before closing, all proofs are dropped and a vault that was locked
+    /// is withdrawn in full (everything must be liquid again)
+    pub full_withdraw_pct: u64,
 }
 
 impl Profile {
@@ -62,7 +65,7 @@ impl Profile {
         w[C_DEPOSIT_WORKTOP] = 4;
         w[C_BADGE] = 7;
         w[C_DROP_MANY] = 1;
-        Profile { min_steps: 1, max_steps: 14, w, fault_pct: 4, leave_pct: 4, account_fee_pct: 15, focus: None }
+        Profile { min_steps: 1, max_steps: 14, w, fault_pct: 4, leave_pct: 4, account_fee_pct: 15, focus: None, full_withdraw_pct: 0 }
     }
     /// worktop / bucket moves
     pub fn worktop() -> Profile {
@@ -81,30 +84,30 @@ impl Profile {
         w[C_DEPOSIT_WORKTOP] = 4;
         w[C_BADGE] = 3;
         w[C_DROP_MANY] = 0;
-        Profile { min_steps: 1, max_steps: 16, w, fault_pct: 6, leave_pct: 10, account_fee_pct: 5, focus: None }
+        Profile { min_steps: 1, max_steps: 16, w, fault_pct: 6, leave_pct: 10, account_fee_pct: 5, focus: None, full_withdraw_pct: 0 }
     }
     /// proofs interleaved with outflows
     pub fn proofs() -> Profile {
         let mut w = [0u32; N_CAT];
-        w[C_WITHDRAW] = 12;
-        w[C_TAKE] = 10;
-        w[C_RETURN] = 4;
+        w[C_WITHDRAW] = 14;
+        w[C_TAKE] = 8;
+        w[C_RETURN] = 3;
         w[C_ASSERT] = 1;
-        w[C_BURN] = 7;
+        w[C_BURN] = 8;
         w[C_MINT] = 1;
-        w[C_RECALL] = 6;
-        w[C_PROOF_BUCKET] = 14;
-        w[C_PROOF_ACCOUNT] = 14;
+        w[C_RECALL] = 8;
+        w[C_PROOF_BUCKET] = 12;
+        w[C_PROOF_ACCOUNT] = 16;
         w[C_PROOF_ZONE] = 6;
-        w[C_CLONE] = 7;
-        w[C_DROP] = 9;
-        w[C_PUSH] = 5;
-        w[C_POP] = 5;
-        w[C_DROP_MANY] = 2;
-        w[C_DEPOSIT] = 4;
+        w[C_CLONE] = 10;
+        w[C_DROP] = 6;
+        w[C_PUSH] = 3;
+        w[C_POP] = 4;
+        w[C_DROP_MANY] = 1;
+        w[C_DEPOSIT] = 3;
         w[C_DEPOSIT_WORKTOP] = 1;
         w[C_BADGE] = 5;
-        Profile { min_steps: 3, max_steps: 18, w, fault_pct: 2, leave_pct: 2, account_fee_pct: 3, focus: None }
+        Profile { min_steps: 5, max_steps: 22, w, fault_pct: 2, leave_pct: 2, account_fee_pct: 3, focus: None, full_withdraw_pct: 40 }
     }
 }
 
@@ -130,8 +133,11 @@ pub struct Plan {
     pub cats: BTreeSet<usize>,
     pub faults: u32,
     pub outflows_under_lock: u32,
+    pub outflows_under_2: u32,
     pub max_live_proofs: u32,
     pub resources_moved: usize,
+    pub exact_take_followed: bool,
+    pub full_withdraw_after_unlock: bool,
 }
 
 impl Plan {
@@ -172,6 +178,7 @@ struct G<'a, 'g, 't> {
     cats: BTreeSet<usize>,
     faults: u32,
     touched: BTreeSet<usize>,
+    full_withdraw: bool,
 }
 
 impl<'a, 'g, 't> G<'a, 'g, 't> {
@@ -184,6 +191,21 @@ impl<'a, 'g, 't> G<'a, 'g, 't> {
     fn pick_res(&mut self) -> usize {
         let rs = self.resources();
         *self.g.pick(&rs)
+    }
+    /// an account vault of `res` that currently has live locks (owner signed), most of the time
+    fn hot_acct(&mut self, res: usize) -> Option<usize> {
+        let hot: Vec<usize> = self
+            .tx
+            .vault_cont
+            .iter()
+            .filter(|(k, c)| k.1 == res && self.tx.conts[**c].locked())
+            .map(|(k, _)| k.0)
+            .collect();
+        if !hot.is_empty() && self.g.chance(3, 4) {
+            Some(*self.g.pick(&hot))
+        } else {
+            None
+        }
     }
     fn pick_acct(&mut self, prefer_signer: bool) -> usize {
         let n = self.wd.accounts.len();
@@ -325,7 +347,14 @@ impl<'a, 'g, 't> G<'a, 'g, 't> {
         match cat {
             C_WITHDRAW => {
                 let res = self.pick_res();
-                let acct = if fault && self.g.chance(1, 3) { self.g.index(self.wd.accounts.len()) } else { self.pick_acct(true) };
+                let acct = if fault && self.g.chance(1, 3) {
+                    self.g.index(self.wd.accounts.len())
+                } else {
+                    match self.hot_acct(res) {
+                        Some(a) => a,
+                        None => self.pick_acct(true),
+                    }
+                };
                 let Some(v) = self.tx.peek_vault(acct, res) else {
                     if fault {
                         self.push(cat, Ins::Withdraw { acct, res, amount: ONE });
@@ -472,7 +501,10 @@ impl<'a, 'g, 't> G<'a, 'g, 't> {
                         return;
                     }
                     let res = *self.g.pick(&rs);
-                    let acct = self.pick_acct(true);
+                    let acct = match self.hot_acct(res) {
+                        Some(a) => a,
+                        None => self.pick_acct(true),
+                    };
                     let Some(v) = self.tx.peek_vault(acct, res) else { return };
                     self.touched.insert(res);
                     match &v.liquid {
@@ -564,7 +596,12 @@ impl<'a, 'g, 't> G<'a, 'g, 't> {
                 if cands.is_empty() {
                     return;
                 }
-                let (acct, res) = *self.g.pick(&cands);
+                let (mut acct, res) = *self.g.pick(&cands);
+                if let Some(a) = self.hot_acct(res) {
+                    if self.led.vault.contains_key(&(a, res)) {
+                        acct = a;
+                    }
+                }
                 self.touched.insert(res);
                 if want_freeze {
                     let flags = 1 + self.g.below(7) as u32;
@@ -638,7 +675,10 @@ impl<'a, 'g, 't> G<'a, 'g, 't> {
                     }
                     *self.g.pick(&holders)
                 } else {
-                    self.pick_acct(true)
+                    match self.hot_acct(res) {
+                        Some(a) => a,
+                        None => self.pick_acct(true),
+                    }
                 };
                 let Some(v) = self.tx.peek_vault(acct, res) else { return };
                 match &v.liquid {
@@ -779,6 +819,43 @@ impl<'a, 'g, 't> G<'a, 'g, 't> {
         }
     }
 
+    /// Drop every proof, then withdraw in full a vault that had been locked: all of it must be
+    /// liquid again.
+    fn full_withdraw_tail(&mut self) {
+        let cands: Vec<(usize, usize)> = self
+            .tx
+            .vault_cont
+            .iter()
+            .filter(|(k, c)| self.tx.conts[**c].ever_locked && self.tx.owner_ok(k.0) && self.tx.conts[**c].anon() == 0)
+            .map(|(k, _)| *k)
+            .collect();
+        if cands.is_empty() {
+            return;
+        }
+        let (acct, res) = *self.g.pick(&cands);
+        if !self.tx.proofs.is_empty() {
+            self.push(C_DROP_MANY, Ins::DropNamedProofs);
+        }
+        if !self.tx.zone.is_empty() {
+            self.push(C_DROP_MANY, Ins::DropZoneRegular);
+        }
+        if self.failed.is_some() {
+            return;
+        }
+        let c = self.tx.vault_cont[&(acct, res)];
+        let total = self.tx.conts[c].amount();
+        match &self.tx.conts[c].liquid {
+            Liquid::N(_) if self.g.bool() => {
+                let ids = self.tx.conts[c].all_known_ids();
+                self.push(C_WITHDRAW, Ins::WithdrawIds { acct, res, ids });
+            }
+            _ => {
+                self.push(C_WITHDRAW, Ins::Withdraw { acct, res, amount: total });
+            }
+        }
+        self.full_withdraw = self.failed.is_none();
+    }
+
     /// Bring the manifest to a state that can succeed: release bucket locks, consume named
     /// buckets, empty the worktop. `leave` cuts it short somewhere.
     fn close(&mut self, leave: bool) {
@@ -887,6 +964,7 @@ pub fn generate(g: &mut Gen, wd: &Wd, led: &Ledger, prof: &Profile) -> Plan {
         cats: BTreeSet::new(),
         faults: 0,
         touched: BTreeSet::new(),
+        full_withdraw: false,
     };
     // fee
     let from_account = !signers.is_empty() && s.g.chance(prof.account_fee_pct, 100);
@@ -909,6 +987,9 @@ pub fn generate(g: &mut Gen, wd: &Wd, led: &Ledger, prof: &Profile) -> Plan {
             break;
         }
         s.step();
+    }
+    if s.failed.is_none() && s.g.chance(prof.full_withdraw_pct, 100) {
+        s.full_withdraw_tail();
     }
     if s.failed.is_none() {
         let leave = s.g.chance(prof.leave_pct, 100);
@@ -959,8 +1040,11 @@ pub fn generate(g: &mut Gen, wd: &Wd, led: &Ledger, prof: &Profile) -> Plan {
         cats: s.cats,
         faults: s.faults,
         outflows_under_lock: s.tx.outflows_under_lock,
+        outflows_under_2: s.tx.outflows_under_2,
         max_live_proofs: s.tx.max_live_proofs,
         resources_moved,
+        exact_take_followed: s.tx.exact_take_followed,
+        full_withdraw_after_unlock: s.full_withdraw,
     }
 }
 
